@@ -7,6 +7,7 @@ round2 = rnd == "r2"
 round3 = rnd == "r3"
 round4 = rnd == "r4"
 round5 = rnd == "r5"
+round6 = rnd == "r6"
 wt = f"/tmp/wt/{pid.lower()}" + rnd
 p = next(json.loads(l) for l in open("/verif/properties.jsonl") if json.loads(l)["id"] == pid)
 print(f"""You are helping to evaluate a verification effort by playing the role of a developer who introduces a subtle regression.
@@ -34,7 +35,7 @@ Procedure for each mutant k in {"(1, 2, 3)" if round2 else "(1, 2)"}:
   2. Edit the source, run the full suite as above and make sure it is still green.
   3. Write the demo, verify it FAILS with the change; then save the change with `mkdir -p {wt}/SEED && git -C {wt} diff -- src > {wt}/SEED/{{k}}.tmp.diff`, restore the clean tree with `git -C {wt} checkout -- src`, verify the demo PASSES on the clean tree, and re-apply the change with `git -C {wt} apply {wt}/SEED/{{k}}.tmp.diff`.  (Do NOT use `git stash`: the stash is shared between worktrees and other people work in sibling worktrees.)
   4. Save:  mkdir -p {wt}/SEED/{{k}} ; git -C {wt} diff -- src > {wt}/SEED/{{k}}/patch.diff ; the demo as {wt}/SEED/{{k}}/demo.py ; and {wt}/SEED/{{k}}/meta.json with keys: "property" ("{pid}"), "clause_broken" (which part of the statement), "what_it_needs_to_manifest", "why_tests_still_pass", "commands_run" (list of strings, with observed results).
-  5. Restore the clean tree again (`git -C {wt} checkout -- .`) before the next mutant.  The mutants must touch different logic / break different clauses where possible.{" Prefer code paths AWAY from the most obvious function for this property: helper modules, type constructors, rarely used parameters, interactions between two modules, the second provider, error paths." if round2 else ""}{" Prefer changes whose effect only shows (1) after a SEQUENCE of operations on the same object or in the same process (caches, memoisation, shared mutable defaults, module-level state, objects reused between calls), or (2) only in ONE CONFIGURATION (the pytz provider, multiple=True, sorted=False, non-default arguments, str vs bytes input), or (3) only at the EDGES of the value types (extreme years, unusual but legal characters, empty or repeated values, boundary lengths)." if round3 else ""}{" Prefer changes whose effect only shows (1) through an ALTERNATIVE public entry point or code path for the same behaviour (another classmethod or constructor, item access vs. attribute access vs. add(), a component-specific subclass, copy()/equality/hash, str vs. bytes arguments, content_line()/content_lines(), walk()/property_items()), or (2) for only ONE component kind, property name, parameter name or value type among the many the library knows (e.g. VJOURNAL, VFREEBUSY, nested or unknown components; rarely used properties; one weekday, one month, one frequency), or (3) only for a COMBINATION of two features that are each fine alone (a parameter together with a value type, a time zone together with a list, folding together with multi-byte characters and quoting, two alarms, two rule parts), or (4) at an arithmetic boundary: an off-by-one in a count, length, index or comparison (< vs <=), a sign, zero, or an overflow into the next unit." if round4 else ""}{" Prefer changes that break one of the LESS PROMINENT clauses of the statement (its later sentences: error reporting, 'never fails', ordering, idempotence, 'adds nothing', 'only the documented errors', symmetry, the behaviour for unknown / non-standard names) rather than the headline clause; or that sit in rarely executed branches (except clauses, fallbacks, compatibility shims for other producers such as Thunderbird, Outlook or Google, Python-version or platform dependent constructs); or in code shared by several features such that only ONE consumer breaks." if round5 else ""}
+  5. Restore the clean tree again (`git -C {wt} checkout -- .`) before the next mutant.  The mutants must touch different logic / break different clauses where possible.{" Prefer code paths AWAY from the most obvious function for this property: helper modules, type constructors, rarely used parameters, interactions between two modules, the second provider, error paths." if round2 else ""}{" Prefer changes whose effect only shows (1) after a SEQUENCE of operations on the same object or in the same process (caches, memoisation, shared mutable defaults, module-level state, objects reused between calls), or (2) only in ONE CONFIGURATION (the pytz provider, multiple=True, sorted=False, non-default arguments, str vs bytes input), or (3) only at the EDGES of the value types (extreme years, unusual but legal characters, empty or repeated values, boundary lengths)." if round3 else ""}{" Prefer changes whose effect only shows (1) through an ALTERNATIVE public entry point or code path for the same behaviour (another classmethod or constructor, item access vs. attribute access vs. add(), a component-specific subclass, copy()/equality/hash, str vs. bytes arguments, content_line()/content_lines(), walk()/property_items()), or (2) for only ONE component kind, property name, parameter name or value type among the many the library knows (e.g. VJOURNAL, VFREEBUSY, nested or unknown components; rarely used properties; one weekday, one month, one frequency), or (3) only for a COMBINATION of two features that are each fine alone (a parameter together with a value type, a time zone together with a list, folding together with multi-byte characters and quoting, two alarms, two rule parts), or (4) at an arithmetic boundary: an off-by-one in a count, length, index or comparison (< vs <=), a sign, zero, or an overflow into the next unit." if round4 else ""}{" Prefer changes that break one of the LESS PROMINENT clauses of the statement (its later sentences: error reporting, 'never fails', ordering, idempotence, 'adds nothing', 'only the documented errors', symmetry, the behaviour for unknown / non-standard names) rather than the headline clause; or that sit in rarely executed branches (except clauses, fallbacks, compatibility shims for other producers such as Thunderbird, Outlook or Google, Python-version or platform dependent constructs); or in code shared by several features such that only ONE consumer breaks." if round5 else ""}{" Prefer changes OUTSIDE the files the property is anchored in: the helper modules (tools.py, parser_tools.py, caselessdict.py, timezone/*.py, the Component base class) and, above all, the DECLARATIVE parts of the library - the tables and class attributes that configure behaviour (types_map / the TypesFactory entries, canonical_order, required / singletons / multiple / exclusive tuples, ignore_exceptions, WINDOWS_TO_OLSON, the equivalent-timezone lookup, regular-expression constants, default arguments) - where one changed entry silently alters one property name, one component kind or one zone.  Also welcome: a change of an exception type or message class in an error path, or of a default value of a keyword argument." if round6 else ""}
 
 Finish with a short report: for each mutant the one-line description, what triggers it, and confirmation of (b) and (d) with the observed outputs.  If you cannot find a change that keeps the suite green, say so rather than weakening the requirements.""" + ("""
 
